@@ -51,6 +51,14 @@ def main():
         rc, out = sh(["/venv/bin/python", "-W", "ignore", demo], cwd="/repo", env=env0, timeout=1200)
         meta["confirmed"]["demo_passes_without"] = rc == 0
         ids = [pid]
+        groups = [{"C01", "C02", "C03", "C04", "C05", "C06", "C15", "C16", "C17", "C18"}, {"C07", "C08", "C09", "C18", "C19", "C04", "C06"},
+                  {"C10", "C11", "C12", "C20", "C01", "C02", "C03"}, {"C13", "C14", "C15"}]
+        if "--related" in sys.argv:
+            rel = set()
+            for g in groups:
+                if pid in g:
+                    rel |= g
+            ids = [pid] + sorted(rel - {pid})
         if run_all:
             man = json.load(open(os.path.join(VERIF, "MANIFEST.json")))
             ids = [pid] + [c["property_id"] for c in man["checks"] if c["property_id"] != pid]
